@@ -938,7 +938,9 @@ var c16Shapes = []c16ReqShape{{"GET", "GET", "/protected", nil}, {"OPTIONS", "OP
 	{"OPTIONS-preflight", "OPTIONS", "/protected", map[string]string{"Origin": "https://app.example.org", "Access-Control-Request-Method": "POST"}},
 	{"GET-root", "GET", "/", nil}, {"GET-query", "GET", "/protected?SAMLResponse=x&RelayState=y", nil}, {"GET-xhr", "GET", "/protected", map[string]string{"X-Requested-With": "XMLHttpRequest", "Accept": "application/json"}},
 	{"GET-upgrade", "GET", "/protected", map[string]string{"Connection": "Upgrade", "Upgrade": "websocket"}}, {"GET-bearer", "GET", "/protected", map[string]string{"Authorization": "Bearer x"}},
-	{"GET-forwarded", "GET", "/protected", map[string]string{"X-Forwarded-For": "127.0.0.1", "X-Forwarded-User": "admin", "X-Remote-User": "admin"}}}
+	{"GET-forwarded", "GET", "/protected", map[string]string{"X-Forwarded-For": "127.0.0.1", "X-Forwarded-User": "admin", "X-Remote-User": "admin"}},
+	// paths that are the SP's own endpoints (the application may be mounted over everything)
+	{"GET-slo-path", "GET", "/saml/slo", nil}, {"POST-slo-path", "POST", "/saml/slo", nil}, {"GET-metadata-path", "GET", "/saml/metadata", nil}, {"POST-slo-path-with-query", "POST", "/saml/slo?SAMLRequest=x", nil}}
 
 var c16Shape = c16Shapes[0]
 
